@@ -56,7 +56,7 @@ def run(tier, seed):
     for name, variant, err in skipped:
         extra.append({"name": "build:%s:%s" % (name, variant), "harness": "generator", "kind": "main",
                       "final": "harness_error", "msg": err})
-    to = 40 if tier == "quick" else 150
+    to = 90 if tier == "quick" else 200
     return runner.run_property(
         "C01", hs, tier, seed, to,
         bounds={"maxlen": 2 if tier == "quick" else 3, "str_len": 3, "schema_depth": 3, "schemas": len(hs)},
